@@ -277,10 +277,18 @@ def dump_real(root, crosscheck=True):
         return d
 
     def rec(p, n):
+        if crosscheck and p != "/":
+            par = p.rsplit("/", 1)[0] or "/"
+            if n.name != p or n.parent.name != par:
+                raise DumpMismatch(f"node reached at {p} calls itself {n.name!r} with parent {n.parent.name!r}")
         if is_group(n):
             out[p] = ["g", None, attrs_of(n)]
             names = list(n.keys())
             if crosscheck:
+                vals = sorted(v.name.rsplit("/", 1)[-1] for v in n.values())
+                its = sorted(k for k, _ in n.items())
+                if vals != sorted(names) or its != sorted(names):
+                    raise DumpMismatch(f"values()/items() disagree with keys() at {p}: {vals} / {its} / {sorted(names)}")
                 if len(n) != len(names) or sorted(iter(n)) != sorted(names):
                     raise DumpMismatch(f"len/iter/keys disagree at {p}: {len(n)} {sorted(iter(n))} {names}")
                 if len(set(names)) != len(names):
